@@ -95,7 +95,8 @@ Record TF (t1 t2 t3 : list pmsg) (idm : list (id * N)) (np : Z) (st bs : store) 
   tf_cov : forall i, i < nch r ->
            written st i \/ In (ra, b + i) (map tid t1) \/ In (mg_wr r + 64 * i) (map waddr t2);
   tf_st : forall a, st a = bs a \/
-                    (mg_wr r <= a < mg_wr r + 64 * nch r /\ st a = sb0 (mg_rd r + (a - mg_wr r)))
+                    (mg_wr r <= a < mg_wr r + 64 * nch r /\ st a = sb0 (mg_rd r + (a - mg_wr r)));
+  tf_pos : (0 < np)%Z \/ nch r = 0    (* a transfer with chunks left is never at count 0 *)
 }.
 
 Lemma TF_repl t1 t1' xs xs' rest t2 t3 idm np st bs :
@@ -103,7 +104,7 @@ Lemma TF_repl t1 t1' xs xs' rest t2 t3 idm np st bs :
   Forall2 (fun m m' => tid m' = tid m /\ (okM m -> okM m')) xs xs' ->
   TF t1 t2 t3 idm np st bs -> TF t1' t2 t3 idm np st bs.
 Proof.
-  intros P1 P2 F [ok1 ok2 nd i1 i2 np' cov st'].
+  intros P1 P2 F [ok1 ok2 nd i1 i2 np' cov st' pos].
   assert (Hids : map tid xs' = map tid xs).
   { clear -F. induction F as [|x y l l' [E _] _ IH]; cbn; congruence. }
   assert (Pid : Permutation (map tid t1) (map tid t1')).
@@ -134,7 +135,7 @@ Proof.
   intros P1 P2 P3 H.
   assert (H1 : TF t1' t2 t3 idm np st bs).
   { eapply (TF_repl t1 t1' [] [] t1'); eauto. }
-  clear H. destruct H1 as [ok1 ok2 nd i1 i2 np' cov st'].
+  clear H. destruct H1 as [ok1 ok2 nd i1 i2 np' cov st' pos].
   constructor; auto.
   - eapply Permutation_Forall; eauto.
   - rewrite np'. apply Permutation_length in P2, P3. congruence.
@@ -148,7 +149,7 @@ Lemma TF_pull1 p t1 t2 t3 idm np st bs :
   exists a, lookup (pr_id p) idm = Some a /\
     TF t1 (t2 ++ [MWrReq (mkWrReq la ma a (pr_data p))]) t3 (delete (pr_id p) idm) np st bs.
 Proof.
-  intros [ok1 ok2 nd i1 i2 np' cov st'].
+  intros [ok1 ok2 nd i1 i2 np' cov st' pos].
   inversion ok1 as [|? ? Hp ok1']; subst. destruct Hp as (i & Hi & ->). cbn [pr_id pr_data].
   cbn [map tid pr_id] in nd. inversion nd as [|? ? Hnin nd']; subst.
   destruct (lookup (ra, b + i) idm) as [a|] eqn:El.
@@ -187,7 +188,7 @@ Lemma TF_write t1 t2 t2' t3 w wd idm np st bs :
   TF t1 t2' (t3 ++ [wd]) idm np (write st (wq_addr w) (wq_data w)) bs.
 Proof.
   intros P H. apply (TF_perm _ _ _ _ _ _ _ _ _ _ (Permutation_refl t1) P (Permutation_refl t3)) in H.
-  destruct H as [ok1 ok2 nd i1 i2 np' cov st'].
+  destruct H as [ok1 ok2 nd i1 i2 np' cov st' pos].
   inversion ok2 as [|? ? Hw ok2']; subst. destruct Hw as (i & Hi & ->). cbn [wq_addr wq_data].
   assert (Hwi : written (write st (mg_wr r + 64 * i) (chunk i)) i).
   { intros j Hj. unfold chunk. rewrite write_read_in by lia. f_equal. lia. }
@@ -208,11 +209,11 @@ Qed.
 
 (** stage 13: an acknowledgement is counted *)
 Lemma TF_count t1 t2 t3 t3' x idm np st bs :
-  Permutation t3 (x :: t3') ->
+  Permutation t3 (x :: t3') -> (np - 1 <> 0)%Z ->
   TF t1 t2 t3 idm np st bs -> TF t1 t2 t3' idm (np - 1)%Z st bs.
 Proof.
-  intros P [ok1 ok2 nd i1 i2 np' cov st']. constructor; auto.
-  apply Permutation_length in P. cbn [length] in P. lia.
+  intros P Hnz [ok1 ok2 nd i1 i2 np' cov st' pos].
+  apply Permutation_length in P. cbn [length] in P. constructor; auto; lia.
 Qed.
 
 Lemma TF_last t1 t2 t3 t3' x idm np st bs :
@@ -221,7 +222,7 @@ Lemma TF_last t1 t2 t3 t3' x idm np st bs :
   TF t1 t2 t3 idm np st bs ->
   t1 = [] /\ t2 = [] /\ t3' = [] /\ forall a, st a = copy_req bs r a.
 Proof.
-  intros Hsz P Hnp [ok1 ok2 nd i1 i2 np' cov st'].
+  intros Hsz P Hnp [ok1 ok2 nd i1 i2 np' cov st' pos].
   apply Permutation_length in P. cbn [length] in P.
   assert (length t1 = 0%nat /\ length t2 = 0%nat /\ length t3' = 0%nat) as (L1 & L2 & L3) by lia.
   apply length_zero_iff_nil in L1, L2, L3. subst. repeat split; auto.
@@ -277,13 +278,14 @@ Proof.
   - intros i Hi. right; left. rewrite !map_map. cbn [tid pq_id]. apply in_map_iff.
     exists (N.to_nat i). rewrite N2Nat.id. split; auto. apply in_seq. subst n. lia.
   - intros a. left. auto.
+  - destruct (N.eq_dec (nch r) 0); [right|left]; lia.
 Qed.
 
 Lemma TF_ext t1 t2 t3 idm np st bs st' bs' :
   (forall a, st' a = st a) -> (forall a, bs' a = bs a) ->
   TF t1 t2 t3 idm np st bs -> TF t1 t2 t3 idm np st' bs'.
 Proof.
-  intros E1 E2 [ok1 ok2 nd i1 i2 np' cov stc]. constructor; auto.
+  intros E1 E2 [ok1 ok2 nd i1 i2 np' cov stc pos]. constructor; auto.
   - intros i Hi. destruct (cov i Hi) as [H|H]; auto. left. intros j Hj. rewrite E1. auto.
   - intros a. rewrite E1, E2. auto.
 Qed.
@@ -870,7 +872,7 @@ Proof.
     + kinds iK.
     + exists wt. rewrite Ecm. auto.
     + unfold Phase. cbn. rewrite Ecm, Eh, Etc. exists b.
-      eapply TF_perm; [reflexivity|reflexivity| |eapply TF_count; [exact P3|exact HT]].
+      eapply TF_perm; [reflexivity|reflexivity| |eapply TF_count; [exact P3|exact Ez|exact HT]].
       unfold toks3; cbn. perm.
 Qed.
 
